@@ -732,6 +732,15 @@ func (ex *Exec) applyContract(fr *Frame, st *State, ct *Contract, fn *ssa.Functi
 			st.assume(st.wf(res))
 		}
 	}
+	if ct.Pure {
+		var argLeaves []*Term
+		for _, a := range args {
+			argLeaves = append(argLeaves, flatten(a)...)
+		}
+		for i, leaf := range flatten(res) {
+			st.assume(Eq(leaf, App(fmt.Sprintf("pure|%s:%s|%d", ct.Pkg, ct.FnName, i), leaf.Sort, argLeaves...)))
+		}
+	}
 	for _, en := range ct.Ensures {
 		env := mkEnv(st, pre, true)
 		ex.bindResults(env, sig, res)
@@ -823,6 +832,9 @@ func (ex *Exec) havocSpecLoc(env *SpecEnv, st *State, e ast.Expr) {
 						}
 						st.setHeap("E|"+lf.ElemKey+"|"+lf.ElemLeaf, Fresh("structfam", ArraySort(RefSort, lf.Sort)))
 						continue
+					}
+					if finalProg != nil && finalProg.finalFamily("H|"+key+"|"+lf.Name) {
+						continue // final fields of existing objects cannot change
 					}
 					st.setHeap("H|"+key+"|"+lf.Name, Fresh("structfam", ArraySort(RefSort, lf.Sort)))
 				}
